@@ -257,6 +257,10 @@ def sc_of_term(ex, t):
     st = G(ex)
     if z3.is_const(t) and str(t) in st['sc']:
         return st['sc'][str(t)]
+    if getattr(ex, 'galg_byte_atoms', False):
+        bp = byte_poly(ex, t)
+        if bp is not None:
+            return bp
     # an arbitrary bit-vector term (e.g. bytes of a symbolic input): one atomic generator per term
     g = st['atoms'].get(t)
     if g is None:
@@ -275,6 +279,52 @@ def sc_of_term(ex, t):
         # link the generator with the bit-vector it stands for (the value is reduced by the caller's contract)
         ex.add(mvar(ex, (g,)) == z3.BV2Int(t) % R)
     return Poly.gen(g)
+
+def byte_atom(ex, b):
+    """generator standing for one symbolic byte (value in [0, 255], exact in Z_r)"""
+    if isinstance(b, int):
+        return Poly.const(b)
+    st = G(ex)
+    g = st['atoms'].get(b)
+    if g is None:
+        opaque = z3.is_app(b) and b.num_args() > 0 and b.decl().kind() == z3.Z3_OP_UNINTERPRETED
+        # bytes produced by uninterpreted hash / KDF functions are formal indeterminates (random-oracle
+        # abstraction, as for hash-to-curve): a linear form in them vanishes iff all coefficients do
+        g = new_gen(ex, 'hby' if opaque else 'by')
+        st['atoms'].set(b, g)
+        st.setdefault('atomterm', {})[g] = b
+        if not opaque:
+            v = mvar(ex, (g,))
+            ex.add(v <= 255)
+            ex.add(b == z3.Int2BV(v, 8))
+    return Poly.gen(g)
+
+def byte_poly(ex, t):
+    """a bit-vector that is a concatenation of whole bytes (constants, 8-bit terms) is the exact linear form
+    sum 256^k * byte_k over Z_r (no reduction is lost: the polynomial domain is arithmetic mod r)"""
+    parts = t.children() if z3.is_app_of(t, z3.Z3_OP_CONCAT) else [t]
+    flat = []
+    for c in parts:
+        if z3.is_bv_value(c):
+            flat.append(c)
+        elif c.size() == 8:
+            flat.append(c)
+        else:
+            return None
+    acc = ZERO
+    for c in flat:          # most significant first
+        w = c.size()
+        if z3.is_bv_value(c):
+            acc = acc.scale(pow(2, w, R)) + Poly.const(c.as_long())
+        else:
+            acc = acc.scale(256) + byte_atom(ex, c)
+    return acc
+
+def os2ip_poly(ex, bs):
+    acc = ZERO
+    for b in bs:
+        acc = acc.scale(256) + byte_atom(ex, b if isinstance(b, int) else simp(tobv(b, 8)))
+    return acc
 
 def sc_read(ex, p):
     return sc_of_term(ex, rd(ex, p, 4))
